@@ -18,6 +18,10 @@ SEEDS = [
     "start: expr NEWLINE\nexpr: expr '+' term | term\nterm: term '*' NUMBER | NUMBER\n",
     "start: ','.(a | b)+ [c] NEWLINE\na: 'a'\nb: 'b' &'c'\nc: 'c'+\n",
     "start: &&'x' (NAME | NUMBER)* ~ 'y' | 'x' NUMBER\n",
+    # every token primitive tried where it does not match (a failing primitive consumes nothing), also as an optional item
+    "start: [SOFT_KEYWORD] NAME NEWLINE | [NUMBER] [STRING] [OP] \"please\" NEWLINE\n",
+    "start: SOFT_KEYWORD \"run\" | NAME SOFT_KEYWORD? NUMBER | [NAME] 'if' | STRING? OP? NEWLINE\n",
+    "start: [t] NAME NEWLINE | [t] NUMBER NEWLINE\nt: SOFT_KEYWORD \"now\" | NAME 'if' | NUMBER STRING | OP OP\n",
 ]
 # a generated rule with an explicit action that evaluates to a falsy value after consuming
 KF_GRAMMAR = "start: a NAME NEWLINE | NAME NAME NEWLINE\na: NAME { None }\n"
